@@ -201,6 +201,15 @@ def step (_ : Unit) (line : String) : Unit × String :=
     match table.find? (·.1 == name) with
     | some (_, e) => s!"s{e} s{e}"
     | none => "bad-op"
+  | ["streq", ha, hb] =>
+    -- strings are their UTF-8 bytes; two equal constants are one shared object (`same`)
+    let a := (bytesOfHex ha).map UInt8.toNat
+    let b := (bytesOfHex hb).map UInt8.toNat
+    let tf (eq : Int) : String := if eq == 1 then "TF" else "FT"
+    let ts := tf (tsStrEq a b)
+    let tsSelf := tf (tsStrEq a a)
+    let w (same : Bool) (x y : List Nat) := tf (wasmStrEq same x y)
+    s!"s{ts}_{ts}_{ts}_{ts}_{tsSelf} s{w (decide (a = b)) a b}_{w false a b}_{w false a b}_{w false a b}_{w true a a}"
   | ["veq", a, b] =>
     match parseElems a, parseElems b with
     | some a, some b =>
